@@ -227,7 +227,7 @@ def expr_chunk(case):
             consts["k"] = O.K_VALUE
         if has_v:
             consts["v"] = np.array(O.V_VALUE)
-        kw = {"signature": ["a", "b"] + (["arr"] if has_arr else []), "consts": consts or None,
+        kw = {"signature": ["a", "b"] + (["arr"] if has_arr else []), "consts": _with_unused(consts),
               "user_funcs": {"f": O.user_f} if _has(text, "f") else None, "allow_indexed": has_arr}
 
         def replay(route, plist, _text=text):
@@ -397,6 +397,14 @@ def expr_chunk(case):
     return rec.result()
 
 
+UNUSED_CONST = {"zz": 7.0}  # an unused constant given FIRST: insertion order (zz, ...) differs from every sorted order
+
+
+def _with_unused(consts):
+    """constants of an expression, preceded by one it does not use (None stays None)"""
+    return {**UNUSED_CONST, **consts} if consts else None
+
+
 def _has_name(text, name):
     return re.search(r"(?<![A-Za-z_0-9\]])" + re.escape(name) + r"(?![A-Za-z_0-9\[(])", text) is not None
 
@@ -456,7 +464,7 @@ def variant_chunk(case):
             rec.outs["no well-conditioned point"] += 1
             continue
         kw = dict(kw0)
-        kw["consts"] = {"k": O.K_VALUE} if _has_name(text, "k") else None
+        kw["consts"] = _with_unused({"k": O.K_VALUE}) if _has_name(text, "k") else None
         kw["user_funcs"] = {"f": O.user_f} if _has(text, "f") else None
 
         def replay(route, plist, _text=text):
@@ -655,7 +663,7 @@ def tensor_chunk(case):
         if not kept:
             rec.outs["no well-conditioned point"] += 1
             continue
-        kw = {"signature": ["a", "b"], "consts": {"k": O.K_VALUE} if _has_name(text, "k") else None,
+        kw = {"signature": ["a", "b"], "consts": _with_unused({"k": O.K_VALUE}) if _has_name(text, "k") else None,
               "user_funcs": {"f": O.user_f} if _has(text, "f") else None}
 
         const_row = [False]
@@ -869,7 +877,7 @@ def field_chunk(case):
             consts["k"] = O.K_VALUE
         if _has_name(text, "w"):
             consts["w"] = w
-        kw = {"consts": consts or None, "user_funcs": {"f": O.user_f} if _has(text, "f") else None}
+        kw = {"consts": _with_unused(consts), "user_funcs": {"f": O.user_f} if _has(text, "f") else None}
         replay = {"grid": gname, "kind": kind, "shape": shape, "exprs": [[text, pos]]}
         route = f"{kind}-field/{gname}" if kind != "evaluate" else "evaluate"
         try:
